@@ -57,6 +57,10 @@ type pwGen struct {
 
 	globalGen   func() []world.GlobalRuleSpec // C11: draws the policy's global rules
 	forcePushes bool
+	// propagationByMembers: propagation entries bring a new commit and are recorded by somebody the
+	// rule trusts (C11: what matters there is the entry as previous state, not who may record it)
+	propagationByMembers bool
+	refOps               map[string][]int // ref -> ops that recorded an entry for it, oldest first
 }
 
 // pspec / pid: developer d as a principal of the generated policies.
@@ -260,10 +264,15 @@ func (g *pwGen) authorisedPush(ref string, i int) {
 		if g.forcePushes && r.Chance(0.25) {
 			op.Base = "root" // history rewrite: the new target does not descend from the previous one
 			op.Files = map[string]string{"rewritten.txt": fmt.Sprintf("rewrite-%d", i)}
+			if older := g.refOps[ref]; len(older) >= 2 && r.Chance(0.5) {
+				// a rewind: back to an earlier recorded state of the branch, then new work on top of it
+				op.Base = fmt.Sprintf("entry:%d", older[r.Intn(len(older)-1)])
+			}
 		}
 		id := g.b.add(op)
 		g.pushes = append(g.pushes, id)
 		g.lastOp[ref] = id
+		g.refOps[ref] = append(g.refOps[ref], id)
 		return
 	}
 	c := g.b.add(world.Op{Kind: "commit", Actor: g.actorForKey(pusher), Ref: ref, Files: fileFor(r, i), CommitKey: pusher})
@@ -353,6 +362,7 @@ func (g *pwGen) unauthorisedPush(ref string, i int) int {
 func (g *pwGen) generate() {
 	r := g.r
 	g.lastOp = map[string]int{}
+	g.refOps = map[string][]int{}
 	g.refs = []string{mainRef, mainRef, mainRef, relRef, relRef, openRef, openRef, main2Ref}
 	g.pol = g.initialPolicy()
 	g.b.add(world.Op{Kind: "stage", Actor: 0, Policy: g.pol})
@@ -396,7 +406,16 @@ func (g *pwGen) generate() {
 			g.b.add(world.Op{Kind: "stage", Actor: 0, Policy: g.pol})
 			policyOps = append(policyOps, g.b.add(world.Op{Kind: "apply", Actor: 0}))
 		case 4:
-			if g.lastOp[ref] != 0 {
+			if g.lastOp[ref] != 0 && g.propagationByMembers {
+				if m := g.membersOf(ref); len(m) > 0 && model.Walk(g.pol, "git:"+ref)[0].Threshold == 1 {
+					k := m[r.Intn(len(m))]
+					cm := g.b.add(world.Op{Kind: "commit", Actor: g.actorForKey(k), Ref: ref, Files: fileFor(r, i+300), CommitKey: k})
+					id := g.b.add(world.Op{Kind: "propagation", Actor: g.actorForKey(k), Ref: ref, Base: fmt.Sprintf("op:%d", cm), Upstream: "https://up.example/repo", EntryKey: -2})
+					g.lastOp[ref] = id
+					g.pushes = append(g.pushes, id)
+					g.refOps[ref] = append(g.refOps[ref], id)
+				}
+			} else if g.lastOp[ref] != 0 {
 				a := r.Range(0, g.cfg.nDev+1)
 				k := a
 				if a > g.cfg.nDev {
